@@ -503,6 +503,21 @@ func checkC05(rep *Report, rng *Rng, tier string) {
 				"note": "deterministic: no timing involved"})
 		}
 	}
+	// readers on a snapshot and on a handle that replaced the collection's handle: one version record, one lock
+	raceRounds := 6
+	if tier == "thorough" {
+		raceRounds = 60
+	}
+	for k := 0; k < raceRounds && len(rep.Violations) == 0; k++ {
+		seed := rng.U64()
+		rep.Evaluations++
+		w := &World{Timeout: 90e9}
+		if msg := w.guard(func() string { return runSetCollRace(seed, 150) }); msg != "" {
+			rep.Violation("", false, map[string]interface{}{"scenario": "4 readers on a snapshot + 4 readers on the handle SetCollection returned for the same name, 150 ms; then a mutation, reads through the snapshot, Close, more mutations, reads", "seed": seed, "observed": msg,
+				"note": "schedule dependent; re-run ./check to retry"})
+		}
+	}
+	rep.Extra["shared_version_reader_rounds"] = raceRounds
 	rep.Extra["parked_node_read_scenarios_run"] = nodeRun
 	rep.Extra["parked_reader_scenarios_run"] = parkedRun
 	rep.Extra["parked_reader_scenarios_skipped"] = parkedSkipped
